@@ -41,7 +41,7 @@ def main():
             pid = meta.get("property") or next(iter(evals.values())).get("property")
             rel = os.path.relpath(d, root).replace("/SEED/", "-").replace("/", "-")
             name = rel if rel.startswith(("C", "M")) else "%s-%s" % (pid, rel)
-            rounds = {"seed": "r1", "seed2": "r2", "seed3": "r3", "seed4": "r4", "seed5": "r5", "seed6": "r6"}
+            rounds = {"seed": "r1", "seed2": "r2", "seed3": "r3", "seed4": "r4", "seed5": "r5", "seed6": "r6", "seed7": "r7"}
             base = os.path.basename(root.rstrip("/"))
             if base in rounds:
                 name = rounds[base] + "-" + name
@@ -84,9 +84,14 @@ def main():
             }
             json.dump(m, open(os.path.join(dst, "meta.json"), "w"), indent=1)
             rows.append(m)
-    # matrix
+    # matrix: every kept change, those imported in earlier sessions included
+    have = {m["id"] for m in rows}
+    for mp in sorted(glob.glob(os.path.join(OUT, "*", "meta.json"))):
+        m = load(mp)
+        if m and m.get("id") and m["id"] not in have and "runs" in m and m.get("breaks_property"):
+            rows.append(m)
     lines = ["# Seeded changes and which checks catch them", "",
-             "`base` = the checks as they were when the change was delivered (own check, quick tier only); `final` = the checks as committed: the property's own quick check and every other quick check that an earlier full pass (all twenty checks, `eval-final2/3.json` in each seed's meta) reported as catching the change, re-run at the final commit (`eval-final4.json`); round-6 changes: all twenty.",
+             "`base` = the checks as they were when the change was delivered (own check, quick tier only); `final` = the checks as committed: the property's own quick check and every other quick check that an earlier full pass (all twenty checks, `eval-final2/3.json` in each seed's meta) reported as catching the change, re-run at the final commit (`eval-final4.json`); round-6 changes: all twenty; round-7 changes: `eval-final.json` (own check plus the checks that caught the change in a full pass made for every change the own check had missed at delivery).",
              "", "| seeded change | breaks | what it is | base: own check | final: caught by |", "|---|---|---|---|---|"]
     for m in sorted(rows, key=lambda x: x["id"]):
         base = m["runs"].get("eval-base.json")
@@ -97,10 +102,13 @@ def main():
         lines.append("| %s | %s | %s | %s | %s |" % (m["id"], m["breaks_property"], (m.get("summary") or "").replace("|", "/").replace("\n", " ")[:160], b, f))
     open(os.path.join(OUT, "MATRIX.md"), "w").write("\n".join(lines) + "\n")
     if rejected:
-        rl = ["# Seeded changes that were not kept", "", "| change | property | what | why not kept | checks that reported it anyway |", "|---|---|---|---|---|"]
+        rp = os.path.join(OUT, "REJECTED.md")
+        rl = open(rp).read().rstrip("\n").split("\n") if os.path.exists(rp) else ["# Seeded changes that were not kept", "", "| change | property | what | why not kept | checks that reported it anyway |", "|---|---|---|---|---|"]
         for name, pid, summ, why, caught in rejected:
-            rl.append("| %s | %s | %s | %s | %s |" % (name, pid, (summ or "").replace("|", "/")[:140], why, ", ".join(caught)))
-        open(os.path.join(OUT, "REJECTED.md"), "w").write("\n".join(rl) + "\n")
+            row = "| %s | %s | %s | %s | %s |" % (name, pid, (summ or "").replace("|", "/")[:140], why, ", ".join(caught))
+            if not any(l.startswith("| %s |" % name) for l in rl):
+                rl.append(row)
+        open(rp, "w").write("\n".join(rl) + "\n")
     print("kept", len(rows), "rejected", len(rejected))
 
 
